@@ -113,7 +113,14 @@ class Scene(Geometry3D):
         base = self.graph.base_frame
         for child in self.graph.transforms.children[base]:
             combined = np.dot(transform, self.graph[child][0])
-            self.graph.update(frame_from=base, frame_to=child, matrix=combined)
+            # only the matrix changes: keep what else is stored
+            # on the edge (geometry reference, node metadata)
+            keep = {
+                k: v
+                for k, v in self.graph.transforms.edge_data[(base, child)].items()
+                if k in ("geometry", "metadata")
+            }
+            self.graph.update(frame_from=base, frame_to=child, matrix=combined, **keep)
         return self
 
     def add_geometry(
